@@ -241,6 +241,11 @@ func runC06(h *Harness, child *rig.Child, c *C06Case) (*Failure, bool) {
 	for _, n := range cmdsOf(d.st) {
 		if n == c.Cmd {
 			ran = true
+		} else {
+			// keys that were still pending as the prefix of a longer sequence
+			// (ESC O in vi insert mode ...) resolved into other commands in this
+			// very read: what changed the buffer cannot be attributed
+			return nil, false
 		}
 	}
 
